@@ -7,6 +7,7 @@ package main
 import (
 	"fmt"
 	"math/rand"
+	"os"
 	"strconv"
 	"strings"
 
@@ -481,6 +482,9 @@ func (g *cgen) step() {
 		g.add("save")
 	case x < 100:
 		cnt("load")
+		if rng.Intn(4) != 0 {
+			g.add("save") // the property's save -> load; without it the load reads whatever the last set left behind
+		}
 		g.add("load " + pick(rng, []string{"0", "0", "1"}))
 	case x < 103:
 		cnt("wfile")
@@ -658,7 +662,7 @@ func valueMatrixCase(r *hxlib.Run, idx int) hxlib.Case {
 		}
 		lines = append(lines, op+" k "+v, "get k "+fbTok(rng, o.ty), "uv k")
 		if rng.Intn(6) == 0 {
-			lines = append(lines, "rfile", "load 0", "uv k", "get k "+fbTok(rng, o.ty))
+			lines = append(lines, "save", "rfile", "load 0", "uv k", "get k "+fbTok(rng, o.ty))
 		}
 	}
 	return hxlib.Case{Lines: lines, Kind: "value-matrix", NonTrivial: true}
@@ -750,36 +754,47 @@ func traceCase(r *hxlib.Run) hxlib.Case {
 		do("set " + rlKey + " " + "s:" + hexS(pick(rng, []string{"beta", "experimental"})))
 	}
 	do("tstart")
+	// one focus option: most closures read it and most setters write it (or the release level, if it is gated),
+	// so that several getter calls on the same closure surround the same setter calls
+	focus := g.opts[rng.Intn(len(g.opts))]
+	if rng.Intn(3) == 0 {
+		focus = g.opts[0] // the gated one
+	}
 	ncl := 1 + rng.Intn(3)
-	type clo struct{ key string }
 	for c := 1; c <= ncl; c++ {
-		o := pick(rng, g.opts)
+		o := focus
+		if rng.Intn(4) == 0 {
+			o = pick(rng, g.opts)
+		}
 		key, ty := o.key, o.ty
-		if rng.Intn(8) == 0 {
+		if rng.Intn(10) == 0 {
 			key, ty = rlKey, 's'
 		}
 		do(fmt.Sprintf("tmk %d %s %s %s", c, key, fbTok(rng, ty), pick(rng, []string{"p", "c", "c"})))
 	}
-	ncalls := 3 + rng.Intn(6)
+	ncalls := 4 + rng.Intn(9)
 	started := 0
 	tid := 0
 	tr := e.tr
 	newCall := func() string {
 		tid++
+		target := focus
+		if rng.Intn(4) == 0 {
+			target = pick(rng, g.opts)
+		}
 		switch x := rng.Intn(20); {
-		case x < 9:
+		case x < 10:
 			r.Count("trace-call:get")
 			return fmt.Sprintf("tcall %d get %d", tid, 1+rng.Intn(ncl))
 		case x < 14:
-			o := pick(rng, g.opts)
-			v := likelyValidTok(rng, o)
-			if rng.Intn(6) == 0 {
+			v := likelyValidTok(rng, target)
+			if rng.Intn(8) == 0 {
 				v = pick(rng, []string{"n", "o:map", "b:1", "s:" + hexS("zzz"), "i:int:5"})
 			}
 			op := pick(rng, []string{"set", "set", "setd"})
 			r.Count("trace-call:" + op)
-			return fmt.Sprintf("tcall %d %s %s %s", tid, op, o.key, v)
-		case x < 17:
+			return fmt.Sprintf("tcall %d %s %s %s", tid, op, target.key, v)
+		case x < 16:
 			op := pick(rng, []string{"set", "setd"})
 			r.Count("trace-call:" + op + ":release-level")
 			return fmt.Sprintf("tcall %d %s %s s:%s", tid, op, rlKey, hexS(pick(rng, []string{"stable", "beta", "experimental"})))
@@ -788,7 +803,7 @@ func traceCase(r *hxlib.Run) hxlib.Case {
 			r.Count("trace-call:" + op)
 			var items []string
 			for _, o := range g.opts {
-				if rng.Intn(3) != 0 {
+				if o == target || rng.Intn(3) != 0 {
 					v := likelyValidTok(rng, o)
 					if strings.HasPrefix(v, "u64") {
 						continue
@@ -810,9 +825,21 @@ func traceCase(r *hxlib.Run) hxlib.Case {
 			continue
 		}
 		run := tr.runnable()
-		if started < ncalls && (len(run) == 0 || rng.Intn(3) == 0) {
-			do(newCall())
+		if started < ncalls && (len(run) == 0 || rng.Intn(4) == 0) {
+			l := newCall()
+			do(l)
 			started++
+			// a getter call mostly starts running right after it began (otherwise nearly all calls of a scenario
+			// would have "begun" before the first setter returns and could legally return old values)
+			if strings.Contains(l, " get ") && rng.Intn(4) != 0 {
+				if t := tr.threads[tid]; tr.enabled(t) {
+					if l2 := tr.next(t); l2 != "" {
+						lines = append(lines, l2)
+						outs = append(outs, "ok")
+						steps++
+					}
+				}
+			}
 			continue
 		}
 		if len(run) == 0 {
@@ -836,5 +863,11 @@ func traceCase(r *hxlib.Run) hxlib.Case {
 	do("rfile")
 	do("rlgate")
 	playback = outs
+	if f := os.Getenv("C04_DUMP_TRACES"); f != "" { // debugging aid
+		if fh, err := os.OpenFile(f, os.O_APPEND|os.O_CREATE|os.O_WRONLY, 0o644); err == nil {
+			fmt.Fprintln(fh, strings.Join(lines, "\n")+"\n#")
+			fh.Close()
+		}
+	}
 	return hxlib.Case{Lines: lines, Kind: "trace", NonTrivial: steps > 4}
 }
